@@ -3,7 +3,6 @@ package checks
 import (
 	"encoding/json"
 	"fmt"
-	"os"
 	"strings"
 
 	"github.com/snower/slock/protocol"
